@@ -377,9 +377,49 @@ def _hide_at_response_level(doc, hide, slot):
     return None
 
 
+def attacker_resigned(text, tns, tlocal):
+    """The signed target edited and signed afresh by somebody who has no key of the issuer: with his own key and his key material in KeyInfo
+    (RSAKeyValue, his certificate, nothing), and with hostile Algorithm identifiers whose text the verification tool echoes in its diagnostics."""
+    from vlib import fed
+    from vlib.xmlkit import sign_element
+    doc = Doc(text)
+    t = _target(doc, tns, tlocal)
+    if t is None:
+        return
+    tid = t.attrs.get("ID")
+    sig = t.child(DS, "Signature")
+    m = re.search(br'SignatureMethod[^>]*Algorithm="[^"]*#([a-z0-9-]+)"', doc.outer(sig))
+    alg = m.group(1).decode() if m else "rsa-sha256"
+    d2 = doc.remove(sig)
+    t2 = _first(d2, tns, tlocal, tid)
+    leaf = [n for n in t2.iter() if not n.children and d2.inner(n).strip() and n.local in ("AttributeValue", "NameID", "Audience", "NewID", "SessionIndex")]
+    edited = d2.set_text(leaf[0], "attacker-" + d2.inner(leaf[0]).decode()).text() if leaf else d2.set_attr(t2, "Consent", "urn:attacker").text()
+    akey = fed.key(9)[0]
+    from vlib.xmlkit import SIG_ALGS
+    if alg not in SIG_ALGS:
+        alg = "rsa-sha256"
+    for how, kb in (("keyvalue", "KEYVALUE"), ("own-certificate", fed.cert_body(9)), ("no-keyinfo", None)):
+        yield "resigned-by-outsider:%s" % how, "sig", sign_element(edited, tns, tlocal, tid, akey, alg, kb)
+    # diagnostics injection: the genuine signature stays, content is edited (so verification fails), and an algorithm identifier carries
+    # line breaks around the word OK - whatever the tool prints about it, that is not a report of success
+    d3 = Doc(text)
+    t3 = _target(d3, tns, tlocal)
+    leaf3 = [n for n in t3.iter() if not n.children and d3.inner(n).strip() and n.local in ("AttributeValue", "NameID", "Audience", "NewID", "SessionIndex")]
+    base = d3.set_text(leaf3[0], "attacker-" + d3.inner(leaf3[0]).decode()) if leaf3 else d3.set_attr(t3, "Consent", "urn:attacker")
+    for where in ("Transform", "SignatureMethod", "DigestMethod", "CanonicalizationMethod"):
+        for sep, sname in (("&#10;", "lf"), ("&#13;&#10;", "crlf"), ("&#x2028;", "ls")):
+            b = Doc(base.b)
+            s3 = _target(b, tns, tlocal).child(DS, "Signature")
+            n = s3.find(DS, where)
+            if not n:
+                continue
+            raw = b.b[:n[0].start] + re.sub(br'Algorithm="[^"]*"', ('Algorithm="urn:x%sOK%sy"' % (sep, sep)).encode(), b.b[n[0].start:n[0].stag_end], 1) + b.b[n[0].stag_end:]
+            yield "diagnostics-injection:%s:%s" % (where, sname), "sig", raw.decode("utf-8")
+
+
 def mutants(text, tns, tlocal, families=("edit", "comment", "sig", "ref", "id", "xsw")):
     seen = set()
-    for gen in (edits, signature_games, wrapping):
+    for gen in (edits, signature_games, attacker_resigned, wrapping):
         try:
             for name, fam, m in gen(text, tns, tlocal):
                 if fam in families and name not in seen and m != text:
